@@ -2,6 +2,7 @@ from props import S
 
 CFG = {
     "properties_file": "Properties/C08.v",
+    "extra_properties_files": ["Properties/C08t.v"],
     "corr_files": ["Corr/C08.v", "Corr/C08g.v", "Corr/C08t.v"],
     "streams": [S("C08", "drive_nfs", 150, 6000), S("C08g", "drive_nfs", 150, 6000),
                 S("C08t", "drive_lts", 120, 3000, race=True)],
@@ -20,7 +21,13 @@ CFG = {
                   "histories of any length (C08_history). C08_facts re-checks by computation that in the current source the "
                   "ReadOnly guard is the first statement of every mutating handler. The model is tied to the Go handlers by "
                   "differential histories evaluated in Coq (status, mutating calls, backend tree), and the statement itself is "
-                  "evaluated on the implementation's observations, including raw malformed argument bytes.",
+                  "evaluated on the implementation's observations, including raw malformed argument bytes. "
+                  "Schedules (Properties/C08t.v, over the policy LTS Model/PolicyLTS.v, all traces, any number of requests, "
+                  "updates and handler timeouts): C08_lts_readonly_in_force - while read-only is in force (the latest returned "
+                  "update set ReadOnly and no update back to read-write has been called since) every backend operation belongs "
+                  "to a request admitted under a ReadOnly policy; C08_lts_no_readwrite_request_op, C08_lts_latest_returned. "
+                  "Tied to the code by the C08t stream (drive_lts): mutating requests held in the backend, timing out or not, "
+                  "overlapping UpdatePolicyOptions/UpdateExportOptions; oracle on the ordered backend-operation log.",
     "level_note": "Trusted: Coq kernel; Model/Srv.v + Model/Backend.v as a rendering of the handlers (validated by the SRV/C08 "
                   "correspondence streams); specfs call recording; astfacts' reading of the guard syntax. Not proved: the "
                   "byte-level decoders in front of the handlers (sampled by C08g).",
